@@ -257,7 +257,7 @@ def run(ctx, drv):
     except ImportError:
         corr_sizes = None
     if corr_sizes is not None:
-        corr_sizes.run(ctx)
+        corr_sizes.run(ctx, ask=lambda line, fn: (reqs.append(line), post.append(fn)))
 
     if drv.ok:
         out = drv.batch(reqs)
